@@ -904,9 +904,11 @@ where
             Some(token) => token,
             None => return Err(StrError::end_of_entry()),
         };
-        for sym in Symbols::new(token.as_ref().chars()) {
+        let mut symbols = Symbols::new(token.as_ref().chars());
+        for sym in &mut symbols {
             op(sym)?;
         }
+        symbols.ok().map_err(|err| StrError::custom(err.as_str()))?;
         Ok(())
     }
 
@@ -915,9 +917,11 @@ where
         F: FnMut(EntrySymbol) -> Result<(), Self::Error>,
     {
         for token in &mut self.iter {
-            for sym in Symbols::new(token.as_ref().chars()) {
+            let mut symbols = Symbols::new(token.as_ref().chars());
+            for sym in &mut symbols {
                 op(sym.into())?;
             }
+            symbols.ok().map_err(|err| StrError::custom(err.as_str()))?;
             op(EntrySymbol::EndOfToken)?;
         }
         Ok(())
@@ -933,11 +937,13 @@ where
         };
         let mut res = <Octets as FromBuilder>::Builder::empty();
 
-        for sym in Symbols::new(token.as_ref().chars()) {
+        let mut symbols = Symbols::new(token.as_ref().chars());
+        for sym in &mut symbols {
             if let Some(data) = convert.process_symbol(sym)? {
                 res.append_slice(data).map_err(Into::into)?;
             }
         }
+        symbols.ok().map_err(|err| StrError::custom(err.as_str()))?;
 
         if let Some(data) = convert.process_tail()? {
             res.append_slice(data).map_err(Into::into)?;
@@ -952,11 +958,13 @@ where
     ) -> Result<Self::Octets, Self::Error> {
         let mut res = <Octets as FromBuilder>::Builder::empty();
         for token in &mut self.iter {
-            for sym in Symbols::new(token.as_ref().chars()) {
+            let mut symbols = Symbols::new(token.as_ref().chars());
+            for sym in &mut symbols {
                 if let Some(data) = convert.process_symbol(sym.into())? {
                     res.append_slice(data).map_err(Into::into)?;
                 }
             }
+            symbols.ok().map_err(|err| StrError::custom(err.as_str()))?;
         }
         if let Some(data) = convert.process_tail()? {
             res.append_slice(data).map_err(Into::into)?;
@@ -970,12 +978,14 @@ where
             None => return Err(StrError::end_of_entry()),
         };
         let mut res = <Octets as FromBuilder>::Builder::empty();
-        for sym in Symbols::new(token.as_ref().chars()) {
+        let mut symbols = Symbols::new(token.as_ref().chars());
+        for sym in &mut symbols {
             match sym.into_octet() {
                 Ok(ch) => res.append_slice(&[ch]).map_err(Into::into)?,
                 Err(_) => return Err(StrError::custom("bad symbol")),
             }
         }
+        symbols.ok().map_err(|err| StrError::custom(err.as_str()))?;
         Ok(<Octets as FromBuilder>::from_builder(res))
     }
 
@@ -996,8 +1006,11 @@ where
             Some(token) => token,
             None => return Err(StrError::end_of_entry()),
         };
-        Name::from_symbols(Symbols::new(token.as_ref().chars()))
-            .map_err(|_| StrError::custom("invalid domain name"))
+        let mut symbols = Symbols::new(token.as_ref().chars());
+        let name = Name::from_symbols(&mut symbols)
+            .map_err(|_| StrError::custom("invalid domain name"))?;
+        symbols.ok().map_err(|err| StrError::custom(err.as_str()))?;
+        Ok(name)
     }
 
     fn scan_charstr(&mut self) -> Result<CharStr<Self::Octets>, Self::Error> {
@@ -1007,12 +1020,14 @@ where
         };
         let mut res =
             CharStrBuilder::<<Octets as FromBuilder>::Builder>::new();
-        for sym in Symbols::new(token.as_ref().chars()) {
+        let mut symbols = Symbols::new(token.as_ref().chars());
+        for sym in &mut symbols {
             match sym.into_octet() {
                 Ok(ch) => res.append_slice(&[ch])?,
                 Err(_) => return Err(StrError::custom("bad symbol")),
             }
         }
+        symbols.ok().map_err(|err| StrError::custom(err.as_str()))?;
         Ok(res.finish())
     }
 
@@ -1023,7 +1038,8 @@ where
         };
         let mut res = <Octets as FromBuilder>::Builder::empty();
         let mut buf = [0u8; 4];
-        for sym in Symbols::new(token.as_ref().chars()) {
+        let mut symbols = Symbols::new(token.as_ref().chars());
+        for sym in &mut symbols {
             match sym.into_char() {
                 Ok(ch) => res
                     .append_slice(ch.encode_utf8(&mut buf).as_bytes())
@@ -1031,6 +1047,7 @@ where
                 Err(_) => return Err(StrError::custom("bad symbol")),
             }
         }
+        symbols.ok().map_err(|err| StrError::custom(err.as_str()))?;
         Ok(Str::from_utf8(<Octets as FromBuilder>::from_builder(res))
             .unwrap())
     }
